@@ -41,7 +41,7 @@ type pipeGen struct {
 
 // stage returns a method-call suffix; `cost` = profile for parallel-capable closures
 func (g *pipeGen) stage(cost string) string {
-	k := g.r.Intn(16)
+	k := g.r.Intn(17)
 	switch k {
 	case 0, 1, 2:
 		g.features["map"]++
@@ -93,6 +93,13 @@ func (g *pipeGen) stage(cost string) string {
 		g.features["fsm"]++
 		g.sides++
 		return ".fsm((s, e) -> let n = (s.state + e) % 3; goto(n)).map(m -> m.state)"
+	case 15:
+		// the second list of cross is iterated once per element of the first one
+		g.features["cross-inner"]++
+		g.parStages++
+		g.sides++
+		return fmt.Sprintf(".top(%d).map(e -> let t = %s; t + 1).top(%d).size() + [1, 2, 3].cross(numbers(%d).map(v -> %s).top(%d), (p, q) -> let c2 = p * 1000; c2 + q).mapReduce(0, (s, e) -> (s * 31 + e) %% 1000003)",
+			40+g.r.Intn(100), costCall(cost, "e"), 13+g.r.Intn(30), 40+g.r.Intn(100), costCall(cost, "v"), 13+g.r.Intn(40))
 	default:
 		g.features["concat"]++
 		return fmt.Sprintf(" + numbers(%d).map(e -> e + 1)", g.r.Intn(20))
@@ -177,6 +184,10 @@ func runC06(c *Ctx) {
 		fastCases = append(fastCases, pc.fast)
 		profCases = append(profCases, pc.prof)
 	}
+	corpus = append(corpus,
+		"[1, 2, 3].cross(numbers(100).map(v -> @C(v)).top(30), (p, q) -> p * 1000 + q).size()",
+		"[1, 2, 3, 4].cross(numbers(60).accept(v -> @C(v) % 2 = 0).top(20), (p, q) -> p * 1000 + q).mapReduce(0, (s, e) -> (s + e) % 1000003)",
+		"numbers(4).map(r -> numbers(50).map(v -> @C(v) + r).top(15).sum()).sum()")
 	corpus = append(corpus, c06ExtraCorpus...)
 	for i, s := range corpus {
 		mk(i, s, "slow", gmps[i%len(gmps)], true, 2)
